@@ -38,6 +38,7 @@ NOT composed here:
   * of the real `cdf`: the `NotImplementedError` for a non-default reward (`self.reward` of a
     `TreeHeightDistribution` IS `TreeHeightReward`) and the NaN log message are not modelled.
 -/
+import PGModel.ConfigDemo
 import PGProofs.EndToEnd
 import PGProofs.DemographyThm
 
@@ -815,15 +816,12 @@ end TwoLocus
 section Demog
 open Config
 
-/-! ### K.1 the translation `Config.Input ↦ List Event` -/
+/-! ### K.1 the translation `Config.Input ↦ List Event`
 
-/-- insert into a strictly ascending list of times, dropping duplicates -/
-def insertTime (x : ℚ) : List ℚ → List ℚ
-  | [] => [x]
-  | y :: ys => if x < y then x :: y :: ys else if x = y then y :: ys else y :: insertTime x ys
-
-/-- `np.sort(np.unique(·))` -/
-def sortDedupQ (l : List ℚ) : List ℚ := l.foldr insertTime []
+The computable definitions (`insertTime`, `sortDedupQ`, `nameIdx`, `changeTimesOf`, `sizeEntries`,
+`migEntries`, `mainEvent`, `sampleOnly`, `extraEvent`, `toEvents`, `tableOfEpoch`, `demoEpochs`) live in
+`PGModel/ConfigDemo.lean` (same names `PG.EndToEnd.*`), where they are linked into `pgdriver`
+(command `cfgepochs`) and compared with the real `coal.demography.epochs`. -/
 
 theorem mem_insertTime (x y : ℚ) (l : List ℚ) : y ∈ insertTime x l ↔ y = x ∨ y ∈ l := by
   induction l with
@@ -866,54 +864,6 @@ theorem sortDedupQ_sorted (l : List ℚ) : (sortDedupQ l).Pairwise (· < ·) := 
   induction l with
   | nil => simp [sortDedupQ]
   | cons a l ih => exact insertTime_sorted a _ ih
-
-/-- **name ↦ index**: the population NAMED `p` is the natural number "position of `p` on the
-sorted list of all names" (`Demography.pop_names` after `AbstractCoalescent.__init__`,
-`Config.allNames`): the numbering under which `PGModel/Demography.lean` keys populations by `ℕ` -/
-def nameIdx (I : Input) (p : Name) : ℕ := (allNames I).idxOf p
-
-/-- `times_all` of `DiscreteRateChanges._flatten`: all change times of all keys, unique, ascending -/
-def changeTimesOf (I : Input) : List ℚ :=
-  sortDedupQ (I.sizes.flatMap (fun e => e.2.map (·.1)) ++ I.mig.flatMap (fun e => e.2.map (·.1)))
-
-/-- `self.pop_sizes[t]` of `DiscreteRateChanges` (demography.py l.712):
-`{x: pops[x] for x in self.pop_names if x in pops}` with `pops = rates[t]`, `rates[t][key] = r[t]`
-for the keys whose change dict `r` has the time `t` -/
-def sizeEntries (I : Input) (t : ℚ) : List (Key × ℚ) :=
-  (demographyNames I.sizes I.mig).filterMap fun p =>
-    ((I.sizes.lookup p).bind fun ch => ch.lookup t).map fun v => (Key.size (nameIdx I p), v)
-
-/-- `self.migration_rates[t]` (l.717):
-`{(p, q): rates[t][(p, q)] for p in self.pop_names for q in self.pop_names if (p, q) in rates[t]}` -/
-def migEntries (I : Input) (t : ℚ) : List (Key × ℚ) :=
-  (demographyNames I.sizes I.mig).flatMap fun p =>
-    (demographyNames I.sizes I.mig).filterMap fun q =>
-      ((I.mig.lookup (p, q)).bind fun ch => ch.lookup t).map
-        fun v => (Key.mig (nameIdx I p) (nameIdx I q), v)
-
-/-- `Demography.__init__` l.84-85: `if len(pop_sizes) or len(migration_rates): self.events +=
-[DiscreteRateChanges(pop_sizes=pop_sizes, migration_rates=migration_rates)]`; `_apply` (l.731-733)
-performs, for every time `t` in its window, `epoch.pop_sizes |= self.pop_sizes[t]` then
-`epoch.migration_rates |= self.migration_rates[t]` -/
-def mainEvent (I : Input) : List Event :=
-  if I.sizes = [] ∧ I.mig = [] then []
-  else [.discrete ((changeTimesOf I).map fun t => (t, sizeEntries I t ++ migEntries I t))]
-
-/-- `{p for p in lineage_config.pop_names if p not in demography.pop_names}`, sorted
-(`DiscreteRateChanges.pop_names` of the added `PopSizeChanges`) -/
-def sampleOnly (I : Input) : List Name :=
-  sortDedup (I.linNames.filter fun p => !(demographyNames I.sizes I.mig).contains p)
-
-/-- `AbstractCoalescent.__init__` l.2411-2418: `demography.add_event(PopSizeChanges({p: {0: 1}
-for p in lineage_config.pop_names if p not in demography.pop_names}))` if there is such a `p` -/
-def extraEvent (I : Input) : List Event :=
-  if sampleOnly I = [] then []
-  else [.discrete [(0, (sampleOnly I).map fun p => (Key.size (nameIdx I p), 1))]]
-
-/-- **The translation.**  The event list of the `Demography` object the coalescent works with,
-populations numbered by `nameIdx`.  (`Demography._prepare_events` then sorts it by start time:
-`sortEvents` inside `epochsUpTo`.) -/
-def toEvents (I : Input) : List Event := mainEvent I ++ extraEvent I
 
 /-- what a Python `dict` guarantees (distinct keys, on both levels), what
 `DiscreteRateChanges.__init__` checks (`ValueError` for a negative time), and -- needed because
@@ -1526,15 +1476,6 @@ theorem epoch_value_is_config_value (I : Input) (hD : DictInput I) (o : DemoOpts
   obtain ⟨c1, c2⟩ := config_value_is_specValue I hD t
   exact ⟨fun p hp => (hv _).trans (c1 p hp), fun p hp q hq => (hv _).trans (c2 p hp q hq)⟩
 
-/-- the tables the transitions read off an epoch object: `Transition.coalesce` l.632
-`[epoch.pop_sizes[pop] for pop in lineage_config.pop_names]`, `migrate_unlinked` l.752
-`epoch.migration_rates[(pop_names[d1], pop_names[d2])]`, `pop_names = lineage_config.pop_names`
-(the deme axis); the epoch's dicts are keyed by `nameIdx` of the name (a `KeyError` is 0 here) -/
-def tableOfEpoch (I : Input) (e : Epoch) : List ℚ × List (List ℚ) :=
-  ((axis I).map fun p => (e.value (.size (nameIdx I p))).getD 0,
-   (axis I).map fun p => (axis I).map fun q =>
-     (e.value (.mig (nameIdx I p) (nameIdx I q))).getD 0)
-
 /-- **`epoch_tables_from_demography`.**  For every epoch `e` which the demography model generates
 from the translated input and every time `t` inside it, the size vector and the migration matrix
 IN AXIS ORDER which the glue derives at `t` (`Config.epochTable`) are the tables read off the
@@ -1642,10 +1583,6 @@ open Assembly Finset Config
 variable {K : Type} [Field K] [LinearOrder K] [IsStrictOrderedRing K]
 
 attribute [local instance] momValK
-
-/-- the epochs `Demography.epochs` generates (the first `count` of them) for the user's input -/
-abbrev demoEpochs (o : DemoOpts) (I : Input) (count : ℕ) : List Epoch :=
-  epochsUpTo o (toEvents I) count
 
 /-- **`capstone_with_demography`.**  `moment_call_eq_labelled` with nothing left free on the
 demography side: the epoch list of the sweep is the list `(start, stop)` of the epochs which the
